@@ -665,15 +665,15 @@ func (c *Ctx) havocLoopTargets(env *Env, st *State, nodes []ast.Node) {
 }
 
 func (c *Ctx) loopSpec(env *Env) (*LoopSpec, int) {
-	if c.inlineTag != "" || c.frame().fi != c.fi {
-		return nil, -1
+	if k, ok := c.loopIndex[c.curLoop]; ok {
+		if c.fi.Contract != nil {
+			return c.fi.Contract.Loops[k], k
+		}
+		return nil, k
 	}
-	n := c.loopOrd
+	// loop of an inlined callee: no invariant available
 	c.loopOrd++
-	if c.fi.Contract != nil {
-		return c.fi.Contract.Loops[n], n
-	}
-	return nil, n
+	return nil, 1000 + c.loopOrd
 }
 
 func (c *Ctx) invEnv(env *Env, pos token.Pos, extra map[string]Val) *Env {
@@ -692,6 +692,7 @@ func (c *Ctx) execFor(env *Env, x *ast.ForStmt, st *State, label string) []*Stat
 		}
 		st = outs[0]
 	}
+	c.curLoop = x
 	spec, n := c.loopSpec(env)
 	if c.unroll > 0 {
 		return c.unrollFor(env, x, st, label)
@@ -764,6 +765,7 @@ func (c *Ctx) addCover(st *State, name string, pos token.Pos) {
 }
 
 func (c *Ctx) execRange(env *Env, x *ast.RangeStmt, st *State, label string) []*State {
+	c.curLoop = x
 	spec, n := c.loopSpec(env)
 	if c.unroll > 0 {
 		return c.unrollRange(env, x, st, label)
@@ -814,6 +816,9 @@ func (c *Ctx) execRange(env *Env, x *ast.RangeStmt, st *State, label string) []*
 		if spec == nil {
 			return
 		}
+		if keyObj != nil && kind != "seq" {
+			s.vars[keyObj] = Val{T: i.T, Ty: keyObj.Type()}
+		}
 		e2 := c.invEnv(env, pos, mkExtra(i))
 		for k, inv := range spec.Invs {
 			g := e2.evalBool(inv.Expr, s)
@@ -832,6 +837,9 @@ func (c *Ctx) execRange(env *Env, x *ast.RangeStmt, st *State, label string) []*
 	c.havocLoopTargets(env, st, []ast.Node{x.Body})
 	i := env.havoc(st, "i", tInt)
 	st.assume(and(app("<=", "0", i.T), app("<=", i.T, lenT)))
+	if keyObj != nil && kind != "seq" {
+		st.vars[keyObj] = Val{T: i.T, Ty: keyObj.Type()}
+	}
 	if spec != nil {
 		e2 := c.invEnv(env, pos, mkExtra(i))
 		for _, inv := range spec.Invs {
